@@ -162,16 +162,19 @@ def sm_elem(name, resume=False, smid=False, previd=None, h=None, cause="none"):
     return e
 
 
-def stream_error(cond=None, text=False, empty=False):
+def stream_error(cond=None, text=False, empty=False, text_first=False):
     inner, cns, c = "", [], 19
     if not empty:
+        cpart = tpart = ""
         if cond is not None:
-            inner += "<%s xmlns='urn:ietf:params:xml:ns:xmpp-streams'/>" % SE_CONDS[cond]
+            cpart = "<%s xmlns='urn:ietf:params:xml:ns:xmpp-streams'/>" % SE_CONDS[cond]
             c = cond
             cns.append("other")
         if text:
-            inner += "<text xmlns='urn:ietf:params:xml:ns:xmpp-streams'>bye</text>"
+            tpart = "<text xmlns='urn:ietf:params:xml:ns:xmpp-streams'>bye</text>"
             cns.append("other")
+        # (the order of condition and text is only in the bytes: the library accepts both orders, the model has no order)
+        inner = (tpart + cpart) if text_first else (cpart + tpart)
     return Elem("streams", "error", childns=cns, xml="<stream:error>%s</stream:error>" % inner, cond=c, text=int(text and not empty), kind="serr")
 
 
@@ -621,7 +624,7 @@ def random_elem(rng):
     if k == 22:
         return Elem("client", "handshake", xml="<handshake xmlns='jabber:client'/>")
     if k < 26:
-        return stream_error(rng.choice([None, 2, 12, 18]), rng.random() < .5, rng.random() < .25)
+        return stream_error(rng.choice([None, 2, 12, 18]), rng.random() < .5, rng.random() < .25, text_first=rng.random() < .4)
     if k == 26:
         return simple("sasl", "other")
     if k == 27:
@@ -1182,6 +1185,13 @@ def corpus_scenarios():
     END = [("run", "close"), ("run", None), ("is",), ("release",)]
     # empty <stream:error/> (fixed d154ddf)
     S.append(Scenario(base_ops() + [("connect", "client", ["accept"]), ("run", None)] + runs(["h1"], [features(False, ["PLAIN"])], [stream_error(empty=True)]) + END, "corpus:empty-stream-error"))
+    # stream error layouts: condition first / text first, before and after the negotiation
+    for tf in (False, True):
+        for cnd in (2, 12, 18):
+            S.append(Scenario(base_ops() + [("connect", "client", ["accept"]), ("run", None)] + runs(["h1"], [features(False, ["PLAIN"])], [stream_error(cnd, True, False, text_first=tf)]) + END,
+                              "corpus:stream-error-layout-early:%d:%d" % (cnd, tf)))
+            S.append(Scenario(base_ops() + [("connect", "client", ["accept"]), ("run", None)] + runs(*(happy_client(tls=False, sm=False) + [[stream_error(cnd, True, False, text_first=tf)]])) + END,
+                              "corpus:stream-error-layout-late:%d:%d" % (cnd, tf)))
     # two teardowns in one read chunk (fixed 117b63d)
     S.append(Scenario(base_ops(flags=2) + [("connect", "client", ["accept"]), ("run", None)] + runs(["h1"], [features(False, ["PLAIN"]), "z"]) + [("is",), ("release",)], "corpus:double-disconnect"))
     # stale SASL offers across reconnects (fixed 8f02bf5)
@@ -1249,7 +1259,7 @@ def shape_vocabulary():
     V += [Elem("component", "handshake", xml="<handshake xmlns='jabber:component:accept'/>"),
           Elem("client", "handshake", xml="<handshake xmlns='jabber:client'/>")]
     V += [stream_error(None, False, False), stream_error(None, True, False), stream_error(2, False, False), stream_error(12, True, False),
-          stream_error(empty=True)]
+          stream_error(12, True, False, text_first=True), stream_error(empty=True)]
     V += [iq("none", "none", name="message"), "z", "g", "h1", "h0"]
     return V
 
@@ -1495,6 +1505,18 @@ def deadline_scenarios(rng, thorough=False):
         ops += [("release",)]
         sc = Scenario(ops, "deadline:healthy-component:%s" % "+".join(map(str, delta)))
         sc.expect = (10 ** 12, "same", ("E:disconnect", "W:close", "T:close"), mark)
+        S.append(sc)
+    # the 2 s wait keeps running across a stream restart (the user gives up while the post-SASL header is awaited;
+    # the server's new header arrives 1500 ms later)
+    for delta in ((499, 1, 1), (500, 1), (501, 1), (3000,)):
+        ops = base_ops() + [("connect", "client", ["accept"]), ("run", None)] + runs(["h1"], [features(False, ["PLAIN"])], [SUCCESS]) + [("disc",), ("run", None)]
+        mark = len(ops)
+        ops += [("clock", 1500), ("run", ("items", ["h1"])), ("run", None), ("is",)]
+        for dt in delta:
+            ops += [("clock", dt), ("run", None), ("is",)]
+        ops += [("release",)]
+        sc = Scenario(ops, "deadline:close-across-restart:%s" % "+".join(map(str, delta)))
+        sc.expect = (2000, "same", ("E:disconnect",), mark)
         S.append(sc)
     # a second disconnect request while the 2 s wait is pending does not extend it
     for first in (1500, 1999):
